@@ -280,6 +280,73 @@ theorem rotate_root_crash_follow_partial (ns : Bool) (hist : List (Bool × Op)) 
     · subst g1; exact List.mem_append_left _ (by simpa using hrk)
     · subst g1; simp
 
+/-- **`CreateUpgrade(t)` publishes the key of the REQUESTED term**: whatever the active term is at the time of the
+call (it may run late, after further rotations — `SealManager.RotateBarrierKey` holds only a read lock between
+`Rotate` and `CreateUpgrade`), the entry written at `upgrade/(t-1)` is the key of term `t`, encrypted under the key
+of term `t-1`, and nothing else is written. -/
+theorem create_upgrade_publishes_requested_term (ns : Bool) (p : Phys) (b : Barrier) (fk : Key) (kr : Keyring)
+    (t : Nat) (tk pk : Key) (hs : b.sealed = false) (hkr : b.keyring = some kr) (ht : t ≠ 0)
+    (htk : kr.termKey t = some tk) (hpk : kr.termKey (t - 1) = some pk) (hok : pk.aesOK = true) :
+    (step ns p b fk (.mkupgrade t)).writes =
+      [.put (.upgrade (t - 1)) (.enc (t - 1) pk (.upgrade (t - 1)) (.val (.keyrec t tk)))] ∧
+    (step ns p b fk (.mkupgrade t)).res = .ok := by
+  simp [step, hs, hkr, ht, htk, hpk, hok]
+
+/-- ... hence, after EVERY history, every stored upgrade entry `upgrade/t` holds the stored keyring's key of term
+`t+1`, encrypted under its key of term `t` (no matter when it was created). -/
+theorem upgrade_entries_hold_their_term (ns : Bool) (hist : List (Bool × Op)) (hv : ValidHist hist) (t : Nat) (e : PEntry) :
+    let w := ({ ns := ns } : World).run hist
+    w.phys.get (.upgrade t) = some e →
+    ∃ rk KR k k', w.phys.get .keyring = some (.enc 1 rk .keyring (.keyring KR)) ∧
+      e = .enc t k (.upgrade t) (.val (.keyrec (t + 1) k')) ∧ KR.termKey t = some k ∧ KR.termKey (t + 1) = some k' := by
+  intro w he
+  have hinv : Inv ([] ++ supplied hist) w := inv_run (inv_init ns) hist hv
+  clear_value w
+  cases hinv with
+  | uninit hp _ _ _ => rw [hp] at he; cases he
+  | live rk KR h _ _ _ _ _ _ _ =>
+    obtain ⟨k, k', he', hk'⟩ := h.ups t e he
+    obtain ⟨t2, k2, pl2, he2, hk2⟩ := h.dec _ _ (by simp) (by simp) (by simp) he
+    rw [he'] at he2; cases he2
+    exact ⟨rk, KR, k, k', h.kr, he', hk2, hk'⟩
+
+/-- **The `CheckUpgrade` walk alone (no reload) gives the standby every term it was missing, with the right key.**
+After any history, a standby whose active term is `s` and which finds an upgrade entry for every term from `s` to
+the stored active term ends the walk at the stored active term, keeps every key it had, and for EVERY term `t` with
+`s ≤ t ≤ active` holds exactly the stored keyring's key — so every entry written under any of those terms (also
+the intermediate ones) decrypts on the standby. -/
+theorem standby_walk_gains_every_term (ns : Bool) (hist : List (Bool × Op)) (hv : ValidHist hist) (kr : Keyring) :
+    let w := ({ ns := ns } : World).run hist
+    w.b.keyring = some kr →
+    ∀ rk KR, w.phys.get .keyring = some (.enc 1 rk .keyring (.keyring KR)) →
+    (∀ t, kr.active ≤ t → t < KR.active → w.phys.get (.upgrade t) ≠ none) →
+    ∀ n, KR.active - kr.active ≤ n →
+      ∃ b' kr', chkLoop w.phys (n + 1) w.b = (b', .okUp false 0) ∧ b'.keyring = some kr' ∧ kr'.active = KR.active ∧
+        (∀ t k, kr.termKey t = some k → kr'.termKey t = some k) ∧
+        (∀ t, kr.active ≤ t → t ≤ KR.active → kr'.termKey t = KR.termKey t) := by
+  intro w hb rk KR hkr hup n hn
+  have hinv : Inv ([] ++ supplied hist) w := inv_run (inv_init ns) hist hv
+  clear_value w
+  cases hinv with
+  | uninit hp _ _ _ => rw [hp] at hkr; cases hkr
+  | live rk0 KR0 h hc hrk sa sb suba sya subb =>
+    have := h.kr; rw [hkr] at this; cases this
+    exact chkLoop_gain h hc hrk _ w.b kr (keyring_unsealed sb hb) hb sb subb rfl hup n hn
+
+/-- non-vacuity, the late-creation interleaving: Rotate(→2), Rotate(→3), CreateUpgrade(2), CreateUpgrade(3), with a
+write under each term; the standby (at term 1) walks to term 3 and reads all three entries WITHOUT reloading -/
+example :
+    let r1 : Key := ⟨0, 1, 32⟩
+    let hist : List (Bool × Op) := [(false, .init r1 none), (false, .unsealB r1), (true, .unsealB r1), (false, .put "d/a" "01"),
+      (false, .rotate), (false, .put "d/b" "02"), (false, .rotate), (false, .put "d/c" "03"),
+      (false, .mkupgrade 2), (false, .mkupgrade 3), (true, .chkupgrade), (true, .chkupgrade), (true, .chkupgrade)]
+    let w := ({} : World).run hist
+    w.phys.get (.upgrade 1) = some (.enc 1 (termKeyN 1) (.upgrade 1) (.val (.keyrec 2 (termKeyN 2)))) ∧
+    w.b.keyring.map (·.keys) = w.a.keyring.map (·.keys) ∧
+    (step false w.phys w.b (termKeyN 9) (.get (.data "d/a"))).res = .okPayload (.val (.bytes "01")) ∧
+    (step false w.phys w.b (termKeyN 9) (.get (.data "d/b"))).res = .okPayload (.val (.bytes "02")) ∧
+    (step false w.phys w.b (termKeyN 9) (.get (.data "d/c"))).res = .okPayload (.val (.bytes "03")) := by decide
+
 /-- **A standby following the upgrade path converges.**  After any history, a standby that is unsealed and finds
 every upgrade entry between its own active term and the stored one ends `performKeyUpgrades` (CheckUpgrade until
 none, ReloadRootKey, ReloadKeyring) without error holding exactly the stored keyring — which is the active node's
